@@ -110,7 +110,7 @@ class ClassicalGate(Box):
         if var not in self.free_symbols:
             return Sum([], self.dom, self.cod)
         name = "{}.grad({})".format(self.name, var)
-        data = self.eval().grad(var, **params).array
+        data = self.eval().grad(var).array
         return ClassicalGate(name, self.dom, self.cod, data)
 
 
